@@ -3,8 +3,10 @@ package object
 import (
 	"fmt"
 	"io"
+	"math"
 	"slices"
 	"sort"
+	"strings"
 
 	"fortio.org/cli"
 	"fortio.org/log"
@@ -176,7 +178,7 @@ func (e *Environment) SaveGlobals(to io.Writer, maxValueLen int) (int, error) {
 			//   x=func(a,b){a+b}
 			// fallthrough.
 		}
-		val := v.Inspect()
+		val := sourceForm(v)
 		if maxValueLen > 0 && len(val) > maxValueLen {
 			log.Warnf("Skipping %q as it's too long (%d > %d)", k, len(val), maxValueLen)
 			continue
@@ -192,6 +194,49 @@ func (e *Environment) SaveGlobals(to io.Writer, maxValueLen int) (int, error) {
 		VerifPoint("save:binding")
 	}
 	return n, nil
+}
+
+// sourceForm is Inspect() spelled so that reading it back gives the same value of the same type: a float keeps
+// a float spelling (Inspect prints 1.0 as 1) and the smallest integer isn't written as minus an out of range literal.
+func sourceForm(v Object) string {
+	switch o := v.(type) {
+	case Float:
+		str := o.Inspect()
+		if math.IsNaN(o.Value) || math.IsInf(o.Value, 0) || strings.ContainsAny(str, ".e") {
+			return str
+		}
+		return str + ".0"
+	case Integer:
+		if o.Value == math.MinInt64 {
+			return "(-9223372036854775807-1)"
+		}
+		return o.Inspect()
+	case SmallArray, BigArray:
+		out := strings.Builder{}
+		out.WriteString("[")
+		for i, el := range Elements(v) {
+			if i > 0 {
+				out.WriteString(",")
+			}
+			out.WriteString(sourceForm(Value(el)))
+		}
+		out.WriteString("]")
+		return out.String()
+	case Map:
+		out := strings.Builder{}
+		out.WriteString("{")
+		for i, kv := range o.mapElements() {
+			if i > 0 {
+				out.WriteString(",")
+			}
+			out.WriteString(sourceForm(Value(kv.Key)))
+			out.WriteString(":")
+			out.WriteString(sourceForm(Value(kv.Value)))
+		}
+		out.WriteString("}")
+		return out.String()
+	}
+	return v.Inspect()
 }
 
 func (e *Environment) HasRegisters() bool {
